@@ -1,5 +1,162 @@
-//! RNG, concurrency — filled in with the model
+//! C16: randomised operations under a scripted OS random source (custom getrandom backend, only in the
+//! `pm_custom_rng` build) and freshness of nonces over many consecutive operations (normal build).
+use crate::be::*;
 use crate::exec::R;
-pub fn exec_more(_t: &[&str]) -> R {
-    Err("bad-op".into())
+use crate::exec4::key_of;
+use crate::util::*;
+use crate::{with_sealing_kind, with_v};
+use paseto_core::PasetoError;
+use paseto_core::key::Key;
+use paseto_core::paserk::PasswordWrappedKey;
+use paseto_core::tokens::UnsealedToken;
+use paseto_core::version::{Local, PkePublic, Secret};
+use std::cell::RefCell;
+use std::str::FromStr;
+
+thread_local! {
+    static SCRIPT: RefCell<(Vec<Option<Vec<u8>>>, usize)> = const { RefCell::new((Vec::new(), 0)) };
+}
+
+/// the custom getrandom 0.3 backend: answers come from the operation line
+#[cfg(pm_custom_rng)]
+#[unsafe(no_mangle)]
+unsafe extern "Rust" fn __getrandom_v03_custom(dest: *mut u8, len: usize) -> Result<(), getrandom::Error> {
+    SCRIPT.with(|s| {
+        let mut s = s.borrow_mut();
+        let i = s.1;
+        s.1 += 1;
+        match s.0.get(i) {
+            Some(Some(b)) if b.len() == len => {
+                unsafe { std::ptr::copy_nonoverlapping(b.as_ptr(), dest, len) };
+                Ok(())
+            }
+            _ => Err(getrandom::Error::UNSUPPORTED),
+        }
+    })
+}
+
+fn set_script(src: &str) -> Option<()> {
+    let answers: Option<Vec<Option<Vec<u8>>>> = if src == "." {
+        Some(vec![])
+    } else {
+        src.split(',').map(|a| if a == "!" { Some(None) } else { unhex(a).map(Some) }).collect()
+    };
+    let answers = answers?;
+    SCRIPT.with(|s| *s.borrow_mut() = (answers, 0));
+    Some(())
+}
+
+fn en(e: PasetoError) -> String {
+    err_name(&e).to_string()
+}
+
+pub fn exec_more(t: &[&str]) -> R {
+    let bad = || "bad-op".to_string();
+    let hx = |i: usize| -> Result<Vec<u8>, String> { t.get(i).and_then(|s| unhex(s)).ok_or_else(bad) };
+    let be = |i: usize| -> Result<Be, String> { t.get(i).and_then(|s| Be::parse(s)).ok_or_else(bad) };
+    let kd = |i: usize| -> Result<Kind, String> { t.get(i).and_then(|s| Kind::parse(s)).ok_or_else(bad) };
+    if t[0].starts_with("rng.") {
+        if !cfg!(pm_custom_rng) {
+            return Err(bad());
+        }
+        let b = be(1)?;
+        if matches!(b, Be::V3Lc | Be::V4S) {
+            return Err(bad());
+        }
+        set_script(t.get(2).ok_or_else(bad)?).ok_or_else(bad)?;
+        return match t[0] {
+            "rng.encrypt" => {
+                let (key, msg, f, a) = (hx(3)?, hx(4)?, hx(5)?, hx(6)?);
+                with_v!(b, V => {
+                    let k = key_of::<V, Local>(&key).map_err(en)?;
+                    let tok = UnsealedToken::<V, Local, Raw>::new(Raw(msg)).with_footer(f).encrypt_with_aad(&k, &a).map_err(en)?;
+                    Ok(hex(tok.to_string().as_bytes()))
+                })
+            }
+            "rng.pie" => {
+                let (k, wk, key) = (kd(3)?, hx(4)?, hx(5)?);
+                with_v!(b, V => with_sealing_kind!(k, K => {
+                    let wk = key_of::<V, Local>(&wk).map_err(en)?;
+                    let w = key_of::<V, K>(&key).map_err(en)?.wrap_pie(&wk).map_err(en)?;
+                    Ok(hex(w.to_string().as_bytes()))
+                }, else Err(bad())))
+            }
+            "rng.pw" => {
+                let (k, pass, donor, key) = (kd(3)?, hx(4)?, String::from_utf8(hx(5)?).map_err(|_| bad())?, hx(6)?);
+                with_v!(b, V => with_sealing_kind!(k, K => {
+                    let params = PasswordWrappedKey::<V, K>::from_str(&donor).map_err(en)?.params().map_err(en)?;
+                    let w = key_of::<V, K>(&key).map_err(en)?.password_wrap_with_params(&pass, &params).map_err(en)?;
+                    Ok(hex(w.to_string().as_bytes()))
+                }, else Err(bad())))
+            }
+            "rng.seal" => {
+                let (pk, key) = (hx(3)?, hx(4)?);
+                with_v!(b, V => {
+                    let pk = key_of::<V, PkePublic>(&pk).map_err(en)?;
+                    let s = key_of::<V, Local>(&key).map_err(en)?.seal(&pk).map_err(en)?;
+                    Ok(hex(s.to_string().as_bytes()))
+                })
+            }
+            "rng.lkey" => with_v!(b, V => Ok(hex(Key::<V, Local>::random().map_err(en)?.expose_key().as_raw_bytes()))),
+            "rng.skey" => {
+                if b == Be::V1 {
+                    return Err(bad()); // RSA key generation uses rsa's OsRng (getrandom 0.2): not scriptable
+                }
+                with_v!(b, V => Ok(hex(Key::<V, Secret>::random().map_err(en)?.expose_key().as_raw_bytes())))
+            }
+            _ => Err(bad()),
+        };
+    }
+    match t[0] {
+        // oracle-only, normal build: n consecutive operations, the nonce / salt / ephemeral key / generated key of each extracted
+        // from the artefact; all must be pairwise distinct
+        "o.fresh" => {
+            let (b, what, n) = (be(1)?, *t.get(2).ok_or_else(bad)?, t.get(3).ok_or_else(bad)?.parse::<usize>().map_err(|_| bad())?);
+            let mut seen = std::collections::HashSet::new();
+            let key = [7u8; 32];
+            let (psk, ppk) = if what == "seal" { crate::gen_paserk::pke_pair(b) } else { (vec![], vec![]) };
+            let _ = psk;
+            for _ in 0..n {
+                let field: Vec<u8> = with_v!(b, V => {
+                    let k = key_of::<V, Local>(&key).map_err(en)?;
+                    match what {
+                        "encrypt" => {
+                            let tok = UnsealedToken::<V, Local, Raw>::new(Raw(b"same message".to_vec())).encrypt(&k).map_err(en)?.to_string();
+                            let p = crate::gen_tok::unb64(tok.rsplit('.').next().unwrap());
+                            p[..24.min(p.len())].to_vec()
+                        }
+                        "pie" => {
+                            let w = key_of::<V, Local>(&key).map_err(en)?.wrap_pie(&k).map_err(en)?.to_string();
+                            let p = crate::gen_tok::unb64(w.rsplit('.').next().unwrap());
+                            let tl = if b.version() % 2 == 1 { 48 } else { 32 };
+                            p[tl..tl + 32].to_vec()
+                        }
+                        "pw" => {
+                            let donor = crate::gen_paserk::pw_template_pub(b, &crate::gen_paserk::min_params(b));
+                            let params = PasswordWrappedKey::<V, Local>::from_str(&donor).map_err(en)?.params().map_err(en)?;
+                            let w = key_of::<V, Local>(&key).map_err(en)?.password_wrap_with_params(b"pw", &params).map_err(en)?.to_string();
+                            let p = crate::gen_tok::unb64(w.rsplit('.').next().unwrap());
+                            let pl = if b.version() % 2 == 1 { 52 } else { 56 };
+                            // salt and nonce: both must be fresh; the parameter block in between is constant
+                            p[..pl].to_vec()
+                        }
+                        "seal" => {
+                            let pk = key_of::<V, PkePublic>(&ppk).map_err(en)?;
+                            let s = key_of::<V, Local>(&key).map_err(en)?.seal(&pk).map_err(en)?.to_string();
+                            let p = crate::gen_tok::unb64(s.rsplit('.').next().unwrap());
+                            match b.version() { 1 => p[80..].to_vec(), 3 => p[48..97].to_vec(), _ => p[32..64].to_vec() }
+                        }
+                        "lkey" => Key::<V, Local>::random().map_err(en)?.expose_key().as_raw_bytes().to_vec(),
+                        "skey" => Key::<V, Secret>::random().map_err(en)?.expose_key().as_raw_bytes().to_vec(),
+                        _ => return Err(bad()),
+                    }
+                });
+                if !seen.insert(field) {
+                    return Ok(format!("distinct=0 n={n}"));
+                }
+            }
+            Ok(format!("distinct=1 n={n}"))
+        }
+        _ => crate::exec7::exec_more(t),
+    }
 }
